@@ -15,6 +15,35 @@ YEARS = (2017, 2018, 2019)
 
 STR_POOL = ["", "a", "bb", "ccc", "dddd", "eeeee", "Zürich", "x y"]
 
+# "Wide" worlds (a per-scenario swarm knob, DESIGN 3.4): sizes, counts and data values
+# beyond what small hand-written examples reach - populations around powers of two,
+# enumerations with many members (never more than 256: indices travel as uint8 on the
+# unchanged tree, which is C15's business), extreme / signed-zero / non-finite numbers,
+# long and non-ASCII text, dates before 1970 and far ahead.
+WIDE_SIZES = {
+    "quick": [8, 9, 15, 16, 17, 24, 31, 32, 33],
+    "thorough": [8, 9, 15, 16, 17, 31, 32, 33, 63, 64, 65, 127, 128, 129, 130, 255, 256, 257, 300],
+}
+WIDE_ENUM_SIZES = [12, 40, 127, 128, 130, 200, 256]
+SPECIAL = {
+    "float": [-0.0, 1e-7, -1e-7, 16777217.0, 3.0e38, -3.0e38, 0.1, 1e20, "nan", "inf", "-inf"],
+    "int": [2147483647, -2147483648, 2147483646, 65536, 32768, 255, 256, -1],
+    "date": ["1969-12-31", "1970-01-01", "1900-02-28", "0001-01-01", "2999-12-31", "2262-04-12", "1677-09-20"],
+    "str": ["", " ", "é" * 3, "a" * 300, "日本語", "tab\tsep", "O'Neil \"q\"", "x" * 9, "nul\x00in", "Ünï"],
+}
+
+
+def wide_knob(rng: random.Random, tier: str, p: float) -> dict | None:
+    """Drawn once per scenario; None for an ordinary (narrow) world."""
+    if not chance(rng, p):
+        return None
+    return {
+        "persons": WIDE_SIZES["thorough" if tier == "thorough" else "quick"] if chance(rng, 0.7) else None,
+        "special": pick(rng, [0.0, 0.3, 0.6]),
+        "nonfinite": chance(rng, 0.5),
+        "enum": chance(rng, 0.5),
+    }
+
 
 # --------------------------------------------------------------------------- #
 # entities
@@ -307,12 +336,15 @@ def gen_world(
     units=None,
     max_depth=2,
     n_groups=None,
+    wide: dict | None = None,
 ) -> dict:
     """discipline: acyclic | spiral | cyclic."""
     ents = gen_entities(rng, n_groups)
     enums = []
     for k in range(rng.randint(1, 2)):
         n = rng.randint(2, 6)
+        if wide and wide.get("enum") and k == 0:
+            n = pick(rng, WIDE_ENUM_SIZES)
         enums.append({"name": f"E{k}", "members": [f"m{k}_{j}" for j in range(n)]})
     world = {
         "entities": ents,
@@ -321,6 +353,8 @@ def gen_world(
         "variables": [],
         "discipline": discipline,
     }
+    if wide:
+        world["wide"] = wide
     n_vars = n_vars or rng.randint(4, 12)
     if discipline in ("spiral", "spiral_cyclic"):
         # quasi-circular chains need variables sharing a unit
@@ -448,6 +482,9 @@ def gen_situation(
     sub-roles get the sub-role of their position in the list (builder rule).
     """
     n = rng.randint(1, max_persons)
+    wide = world.get("wide") or {}
+    if wide.get("persons"):
+        n = pick(rng, wide["persons"])
     pids = [f"p{k}" for k in range(n)]
     order = pids[:]
     rng.shuffle(order)
@@ -466,6 +503,9 @@ def gen_situation(
             return mx is None or len(group[role["plural"]]) < mx
 
         n_groups = rng.randint(1, max(1, min(n, 3)))
+        if n > 7:
+            # few big groups, many small ones, or as many groups as persons
+            n_groups = pick(rng, [1, 2, 3, max(1, n // 3), max(1, n // 2), n - 1, n])
         groups = {
             f"{ent['key']}{k}": {r["plural"]: [] for r in roles} for k in range(n_groups)
         }
@@ -517,6 +557,14 @@ def entity_counts(sit: dict, world: dict) -> dict:
 
 def gen_value(rng: random.Random, var: dict, world: dict):
     t = var["type"]
+    wide = world.get("wide") or {}
+    if wide.get("special") and t in SPECIAL and chance(rng, wide["special"]):
+        pool = SPECIAL[t]
+        if t == "float" and not wide.get("nonfinite"):
+            pool = [x for x in pool if not isinstance(x, str)]
+        if t == "str" and var.get("max_length"):
+            pool = [x for x in pool if x.isascii() and len(x) <= var["max_length"] and "\x00" not in x] or [""]
+        return pick(rng, pool)
     if t == "float":
         return pick(rng, [0.0, 1.0, 2.5, 10.0, 100.0, 1234.5, -3.0, 12.0, 0.25, 250000.0, 999999.0])
     if t == "int":
